@@ -25,6 +25,10 @@ BUILD = os.path.join(VERIF, "build")
 HARNESS = os.path.join(VERIF, "harness", "pubsub")
 GO125 = "/root/go/pkg/mod/golang.org/toolchain@v0.0.1-go1.25.0.linux-amd64/bin/go"
 TAGS = "verif"
+# scratch overrides used by the sensitivity tooling (tools/trymut.py) so that runs against deliberately broken
+# trees pollute neither replays/ nor evidence/
+REPLAYS = os.environ.get("VERIF_REPLAYS_DIR", os.path.join(VERIF, "replays"))
+EVIDENCE = os.environ.get("VERIF_EVIDENCE_DIR", os.path.join(VERIF, "evidence"))
 
 sys.path.insert(0, VERIF)
 from parts import PARTS, LEVEL, RULES, ASSUMPTIONS  # noqa: E402
@@ -196,7 +200,7 @@ def replay_case(binary, path, rundir, runs=None, timeout=600):
 
 
 def save_replay(prop, src_json_path=None, obj=None):
-    d = os.path.join(VERIF, "replays", prop)
+    d = os.path.join(REPLAYS, prop)
     os.makedirs(d, exist_ok=True)
     if obj is None:
         obj = json.load(open(src_json_path))
@@ -247,7 +251,7 @@ def cmd_run(prop, tier):
         log(l)
 
     # 2. replay tier: stored minimal failing cases of earlier runs
-    for i, rp in enumerate(sorted(glob.glob(os.path.join(VERIF, "replays", prop, "*.json")))):
+    for i, rp in enumerate(sorted(glob.glob(os.path.join(REPLAYS, prop, "*.json")))):
         keys, done, crashed, out = replay_case(binary, rp, os.path.join(rundir, "replay%d" % i))
         bad = [(k, l) for k, l in keys if k not in known_keys]
         if bad:
@@ -411,7 +415,7 @@ def cmd_run(prop, tier):
 
 
 def write_evidence(prop, tier, seed, merged, violations, infra, known_keys, wall):
-    os.makedirs(os.path.join(VERIF, "evidence"), exist_ok=True)
+    os.makedirs(EVIDENCE, exist_ok=True)
     evaluations = sum(m["evaluations"] for m in merged.values())
     distinct_nt = sum(len(m["nt"]) for m in merged.values())
     samples = []
@@ -450,9 +454,9 @@ def write_evidence(prop, tier, seed, merged, violations, infra, known_keys, wall
         "wall_s": round(wall, 2),
         "violations": len(violations),
     }
-    tmp = os.path.join(VERIF, "evidence", prop + ".json.tmp")
+    tmp = os.path.join(EVIDENCE, prop + ".json.tmp")
     json.dump(ev, open(tmp, "w"), indent=1)
-    os.replace(tmp, os.path.join(VERIF, "evidence", prop + ".json"))
+    os.replace(tmp, os.path.join(EVIDENCE, prop + ".json"))
 
 
 def cmd_replay(path):
